@@ -513,12 +513,18 @@ macro_rules! impl_io_uring {
                 $($arg: $arg_type),*
             ) -> std::io::Result<Arc<(Mutex<Option<c_longlong>>, Condvar)>> {
                 let token = EventLoop::token(SyscallName::$syscall);
-                self.operator.$syscall(token, $($arg, )*)?;
+                // the slot must exist before the kernel sees the submission: the
+                // loop thread may reap the completion at once, and a completion
+                // that finds no slot is dropped (the caller would wait for ever)
                 let arc = Arc::new((Mutex::new(None), Condvar::new()));
                 assert!(
                     self.syscall_wait_table.insert(token, arc.clone()).is_none(),
                     "The previous token was not retrieved in a timely manner"
                 );
+                if let Err(e) = self.operator.$syscall(token, $($arg, )*) {
+                    _ = self.syscall_wait_table.remove(&token);
+                    return Err(e);
+                }
                 Ok(arc)
             }
         }
@@ -560,12 +566,18 @@ macro_rules! impl_iocp {
                 $($arg: $arg_type),*
             ) -> std::io::Result<Arc<(Mutex<Option<c_longlong>>, Condvar)>> {
                 let token = EventLoop::token(SyscallName::$syscall);
-                self.operator.$syscall(token, $($arg, )*)?;
+                // the slot must exist before the kernel sees the submission: the
+                // loop thread may reap the completion at once, and a completion
+                // that finds no slot is dropped (the caller would wait for ever)
                 let arc = Arc::new((Mutex::new(None), Condvar::new()));
                 assert!(
                     self.syscall_wait_table.insert(token, arc.clone()).is_none(),
                     "The previous token was not retrieved in a timely manner"
                 );
+                if let Err(e) = self.operator.$syscall(token, $($arg, )*) {
+                    _ = self.syscall_wait_table.remove(&token);
+                    return Err(e);
+                }
                 Ok(arc)
             }
         }
